@@ -171,8 +171,9 @@ def run_case(case):
                                 ev, evec = DecompositionTool(Q).get_decomposition(tol=tol, maxiter=20000, which=which,
                                                                                   sigma=sigma, k=k)
                             except Exception as e:
-                                if type(e).__name__ == "ArpackNoConvergence":
-                                    # the solver deliberately reports that it has no answer within maxiter: no verdict
+                                if type(e).__name__ in ("ArpackNoConvergence", "ArpackError"):
+                                    # the solver explicitly reports that it has no answer (no convergence within maxiter, or ARPACK error 3
+                                    # 'no shifts could be applied' on tiny metastable generators): no verdict
                                     stats["no_convergence"] = stats.get("no_convergence", 0) + 1
                                     continue
                                 vs.append(viol(dkey + "|raises", f"decomposition raised {type(e).__name__}: {str(e)[:100]}",
